@@ -107,6 +107,8 @@ def ge_cursor(f, loop, cur, bound, e, at, assume_nonneg=(), depth=0):
             return False
         res = True
         for d in ds:
+            if d.kind == 'aug' and isinstance(d.stmt, ast.AugAssign) and isinstance(d.stmt.op, ast.Add) and _nonneg(f, d.stmt.value, d.node):
+                continue        # `j += <non-negative>`: at or after the cursor if every plain definition of j is (induction over the increments)
             if d.kind != 'assign' or d.value is None:
                 return False
             v = ge_cursor(f, loop, cur, bound, d.value, d.node, assume_nonneg, depth + 1)
@@ -161,7 +163,8 @@ def check(P, R):
                  f'`{short(c)}` separates text that `{short(dec[0])}` has already percent-decoded: an escaped separator inside a name (%3D, %26) is decoded first and then '
                  f'taken for the real separator - `sum%28a%3Db%29=yes` parses to (\'sum(a\', \'b)=yes\')',
                  why='parsing the encoding of a list of pairs yields the same pairs, separators inside keys and values included', key_extra='split-before-decode')
-    whiles = [n for n in walk_shallow(f.node) if isinstance(n, ast.While)]
+    whiles = [n for n in walk_shallow(f.node) if isinstance(n, ast.While) and not any(isinstance(p_, ast.While) for p_ in T.loops_of(n)[1:] if p_ is not n)]
+    whiles = [n for n in whiles if enclosing(n, ast.While) is None]
     R.require(len(whiles) == 1, f'{f.fq}: expected one scanning loop')
     loop = whiles[0]
     cp = compare_parts(loop.test)
@@ -204,8 +207,18 @@ def check(P, R):
          why='parsing any string whatsoever terminates', key_extra='progress')
     # inner loops are for-loops
     inner_while = [n for st in loop.body for n in walk_shallow(st) if isinstance(n, ast.While)]
-    R.ob('C18.a', f, loop, not inner_while, text='inner loops are bounded for-loops', detail='' if not inner_while else 'inner while loop in the scanner',
-         nontrivial=False)
+
+    def bounded_index_loop(w):
+        # `while j < L and <tests of qs[j]>: j += k` (k >= 1, nothing else in the body, L loop-invariant)
+        conj = bool_operands(w.test, ast.And)
+        cp0 = compare_parts(conj[0]) if conj else None
+        if not (cp0 and cp0[1] is ast.Lt and isinstance(cp0[0], ast.Name) and isinstance(cp0[2], ast.Name) and cp0[2].id == bound):
+            return False
+        return len(w.body) == 1 and isinstance(w.body[0], ast.AugAssign) and isinstance(w.body[0].target, ast.Name) and w.body[0].target.id == cp0[0].id \
+            and isinstance(w.body[0].op, ast.Add) and isinstance(w.body[0].value, ast.Constant) and isinstance(w.body[0].value.value, int) and w.body[0].value.value >= 1
+    unbounded = [w for w in inner_while if not bounded_index_loop(w)]
+    R.ob('C18.a', f, unbounded[0] if unbounded else loop, not unbounded, text='inner loops are bounded (for-loops, or an index counted up to the length)',
+         detail='' if not unbounded else 'an inner while loop of the scanner is not of the form `while j < L and ..: j += 1`', nontrivial=False)
 
     # ---- b: raises nothing
     unq = unquote_names(mod)
@@ -319,6 +332,20 @@ def check_total(P, R, f, unq, seen, depth=0):
             # indexing: only of dicts after a membership test / lists; flag string indexing by computed index
             v = dotted(n.value) or ''
             ok = v.startswith('_') or v in ('container',)
+            if not ok and isinstance(n.slice, ast.Name):
+                # `j < L and qs[j] ...`: an earlier conjunct of the same test bounds the index by the length of the indexed text
+                p_ = getattr(n, '_p', None)
+                child_ = n
+                while p_ is not None and not isinstance(p_, ast.stmt):
+                    if isinstance(p_, ast.BoolOp) and isinstance(p_.op, ast.And):
+                        idx_ = next((i_ for i_, v_ in enumerate(p_.values) if any(x_ is n for x_ in ast.walk(v_))), None)
+                        for v_ in p_.values[:idx_ or 0]:
+                            cpv = compare_parts(v_)
+                            if cpv and cpv[1] is ast.Lt and src(cpv[0]) == n.slice.id and isinstance(cpv[2], ast.Name):
+                                mv_ = T.expand(f, cpv[2], f.cfg.node_of_stmt(n)[0]) if f.cfg.node_of_stmt(n) else cpv[2]
+                                if isinstance(mv_, ast.Call) and dotted(mv_.func) == 'len' and mv_.args and src(mv_.args[0]) == v:
+                                    ok = True
+                    p_ = getattr(p_, '_p', None)
             if not ok and not isinstance(f.node, ast.Lambda):
                 # `d[k]` right under `if k in d`
                 nn_ = f.cfg.node_of_stmt(n)
@@ -335,7 +362,9 @@ def check_add(P, R, f):
     scope_nodes = [f.node]
     sink_names = {'setitem'}
     if adds:
-        a = adds[0]
+        # several sinks may be defined by name (one per mode): the one under examination is the one that feeds setitem
+        feeding = [x for x in adds if any(isinstance(c_, ast.Call) and dotted(c_.func) in sink_names for c_ in ast.walk(x.node))]
+        a = (feeding or adds)[0]
         k, v = a.params[0], a.params[1]
     else:
         # the sink may be a small callable object of the package: `add = _Setter(setitem)` with the logic in __call__
